@@ -48,10 +48,27 @@ async fn main() {
         gen_tree(&mut r, &origin, 3, &mut dirs);
         // ignore files
         let mut igfiles: Vec<(PathBuf, Vec<&str>)> = vec![];
+        // every third tree gets a prefix-sibling scenario: `short` and `long` (= short + more characters) side by side,
+        // `long` ignored from above and holding an ignore file of its own, `short` holding one too — a filter that looks
+        // ignore files up by string prefix may judge `long` with `short`'s files and stop before its parents' files
+        if r.below(3) == 0 {
+            let scen = [("a", "ab", "ab/"), ("test", "tests", "tests"), ("x.d", "x.d2", "x.d2/"), ("out", "out-old", "*-old/"), ("sub", "sub.bak", "sub.bak")];
+            let (short, long, pat) = scen[r.below(scen.len() as u64) as usize];
+            let parent = dirs[r.below(dirs.len() as u64) as usize].clone();
+            if !parent.components().any(|c| c.as_os_str().to_string_lossy().starts_with('.') || c.as_os_str() == "_darcs") {
+                for nm in [short, long] { let d = parent.join(nm); if !d.is_dir() { std::fs::create_dir_all(&d).unwrap(); dirs.push(d); } }
+                let above = if r.below(2) == 0 { origin.clone() } else { parent.clone() };
+                let (pa, ps, pl) = (above.join(".gitignore"), parent.join(short).join(r.pick(&[".gitignore", ".ignore"])), parent.join(long).join(".gitignore"));
+                for (p, lines) in [(pa, vec![pat]), (ps, vec![r.pick(&pats)]), (pl, vec![r.pick(&pats)])] {
+                    if !igfiles.iter().any(|(q, _)| *q == p) { std::fs::write(&p, lines.join("\n") + "\n").unwrap(); igfiles.push((p, lines)); }
+                }
+            }
+        }
         for d in &dirs {
             for nm in [".gitignore", ".ignore", ".hgignore"] {
                 if r.below(5) == 0 {
                     let p = d.join(nm);
+                    if igfiles.iter().any(|(q, _)| *q == p) { continue; }
                     if r.below(8) == 0 { std::fs::write(&p, "").unwrap(); continue; } // empty: must not count
                     let k = r.below(3) as usize + 1;
                     let lines: Vec<&str> = (0..k).map(|_| r.pick(&pats)).collect();
